@@ -22,7 +22,14 @@ Alphabet == <<
     O("mutate", "s", {1}, "delete", "set"), O("mutate", "s", {2, 3}, "delete", "set"),
     O("update", "m", EmptyMap, "", ""), O("update", "m", (1 :> 1), "", ""),
     O("mutate", "m", (1 :> 2), "insert", "col"), O("mutate", "m", (2 :> 1), "insert", "col"),
-    O("mutate", "m", {1}, "delete", "keys"), O("mutate", "m", (1 :> 1), "delete", "col")
+    O("mutate", "m", {1}, "delete", "keys"), O("mutate", "m", (1 :> 1), "delete", "col"),
+    \* two mutations of one column in one operation: no-op tails, cancelling pairs
+    O("mutate2", "s", <<{3}, {3}>>, <<"insert", "insert">>, <<"set", "set">>),
+    O("mutate2", "s", <<{1}, {1}>>, <<"delete", "delete">>, <<"set", "set">>),
+    O("mutate2", "s", <<{3}, {3}>>, <<"insert", "delete">>, <<"set", "set">>),
+    O("mutate2", "m", <<(2 :> 2), (2 :> 2)>>, <<"insert", "insert">>, <<"col", "col">>),
+    O("mutate2", "m", <<(2 :> 2), {2}>>, <<"insert", "delete">>, <<"col", "keys">>),
+    O("mutate2", "m", <<{1}, {1}>>, <<"delete", "delete">>, <<"keys", "keys">>)
 >>
 
 Origins == {NoRow, DefaultRowM, R1, [a |-> 2, o |-> {}, s |-> {3}, m |-> (1 :> 2 @@ 2 :> 1)]}
@@ -36,8 +43,10 @@ S2Q(S) == IF S = {} THEN <<>> ELSE LET x == CHOOSE x \in S : \A y \in S : x <= y
 MapJ(f) == [i \in 1..Cardinality(DOMAIN f) |-> <<S2Q(DOMAIN f)[i], f[S2Q(DOMAIN f)[i]]>>]
 RowJ(r) == IF r = NoRow THEN [present |-> FALSE, a |-> 0, o |-> <<>>, s |-> <<>>, m |-> <<>>]
            ELSE [present |-> TRUE, a |-> r.a, o |-> S2Q(r.o), s |-> S2Q(r.s), m |-> MapJ(r.m)]
+MVJ(col, shape, v) == CASE col = "s" -> S2Q(v) [] shape = "keys" -> S2Q(v) [] OTHER -> MapJ(v)
 ValJ_(op) ==
     CASE op.op = "insert" -> RowJ(op.val)
+      [] op.op = "mutate2" -> <<MVJ(op.col, op.shape[1], op.val[1]), MVJ(op.col, op.shape[2], op.val[2])>>
       [] op.op = "delete" -> 0
       [] op.col = "a" -> op.val
       [] op.col \in {"o", "s"} -> S2Q(op.val)
